@@ -146,7 +146,7 @@ PLAN = {
                 #  specification, witnesses/F6.json, instead of being searched for by TLC)
                 witness_mc=[]),
     "C06": _p(["C06.frame"], [("apps", 8, 11)], ["apps"], ["apps"], ["P06"],
-              pairs=[("iso", 96, 4000)], pairclause="C06.pair"),
+              pairs=[("iso", 144, 4000)], pairclause="C06.pair"),
     "C07": _p(["C07.a", "C07.b", "C07.c", "C07.d", "C07.e"], [("core", 9, 12), ("apps", 8, 11)],
               ["core", "apps"], ["nameplate", "apps", "crowd", "script", "script2"], ["P07"]),
     "C08": _p(["C08.a", "C08.b", "C08.c", "C08.d"], [("core", 9, 12)], ["core"],
@@ -159,16 +159,16 @@ PLAN = {
                    ["crash", "usage", "mailbox", "script2", "crowd"], ["P09"]),
                 variants={"crash": [dict(), dict(usage=True)]}),
     "C10": dict(_p(["C10.a", "C10.b", "C10.c", "C13.c"], [("crash", 8, 11), ("crashu", 7, 10)], ["crash", "crashu"],
-                   ["crash", "boundaries"], ["P10", "P13"], pairs=[("resume", 120, 4000)], pairclause="C10.resume"),
+                   ["crash", "boundaries"], ["P10", "P13"], pairs=[("resume", 144, 4000)], pairclause="C10.resume"),
                 variants={"crash": [dict(), dict(usage=True)], "boundaries": [dict(), dict(usage=True)]}),
     "C11": _p([], [("time", 8, 11)], ["time"], [], ["P01", "P02"],
-              pairs=[("restart", 120, 4000)], pairclause="C11.pair"),
+              pairs=[("restart", 144, 4000)], pairclause="C11.pair"),
     "C12": _p(["C12.a", "C12.b", "C12.c"], [("time", 8, 11), ("time2", 7, 10)], ["time", "time2"],
               ["time", "fanout", "script", "script2"], ["P12"]),
     "C13": _p(["C13.a", "C13.b", "C13.c"], [("time", 8, 11), ("time2", 7, 10)], ["time", "time2"],
               ["time", "crowd", "mailbox", "script", "script2"], ["P13"]),
     "C14": _p([], [("core", 9, 12)], ["core"], [], ["P03", "P07", "P08"],
-              pairs=[("resend", 120, 4000)], pairclause="C14.pair"),
+              pairs=[("resend", 160, 4000)], pairclause="C14.pair"),
     "C15": dict(_p(["C15.a", "C15.b", "C15.c"], [("usage", 7, 10), ("usage7", 7, 10)], ["usage", "usage7"],
                    ["usage", "crowd", "script2"], ["P15"]),
                 variants={"usage": [dict(usage=True, blur=0), dict(usage=True, blur=3)],
@@ -182,7 +182,7 @@ PLAN = {
                                     dict(usage=True, blur=3600, unit=1), dict(usage=True, blur=100, unit="1/100"),
                                     dict(usage=True, blur=700, unit="1/100")]}, classify=True),
     "C18": dict(_p(["C18.a"], [("nolist", 8, 11), ("alloc", 8, 11), ("allocnl", 8, 11)], ["nolist"],
-                   ["nameplate"], ["P18"], pairs=[("config", 96, 4000)], pairclause="C18.pair"),
+                   ["nameplate"], ["P18"], pairs=[("config", 120, 4000)], pairclause="C18.pair"),
                 variants={"nameplate": [dict(allow=True), dict(allow=False), dict(allow=False, usage=True, blur=3)]}),
     "C17": dict(_p(["C17.a", "C17.b", "C17.c", "C17.d", "C17.e", "C17.f", "C17.g"], [("proto", 7, 10), ("apps", 8, 11)],
                    ["proto"], ["proto", "apps", "script", "script2"], ["P17"]),
